@@ -32,10 +32,18 @@ The third clause — each tree vertex labelled with its least cost — is claime
 access model), `config_tree_reachable_least_cost`; `tree_is_reachable_set_on` is its instance-level
 form (`UniformCostOn`: premises only on the calls the search makes).
 
-Not here: that a run *ends* — every theorem is of the form "if the run returned …"; in particular
+The reachability theorems of the first sections are of the form "if the run returned …": there
 "reachable ⇒ a route is returned" holds among the outcomes result / "no path" (the premise `hres`),
 which excludes the explicit termination and the failing calls listed in
-`config_run_result_or_benign`, and the model's two schedule-replay errors.
+`config_run_result_or_benign`, and the model's two schedule-replay errors.  That a run *ends*, and ends
+in one of these two outcomes, is the last section ("The search ends, and ends with the right
+answer"): `dijkstra_decides_reachability`, `search_decides_reachability`, `tree_search_returns` — on
+well-formed distance configurations (`Config.WellFormedDistance`: distance traversal model, no access
+model, no turn restrictions, every vertex in range) whose limits do not fire within the bounds the
+termination proofs give (a configured limit that is large enough is inside the premise) — and, with
+any access model, `dijkstra_with_access_model_ends_and_decides` (the end may then be a component error
+or a termination).  Not proved: that the pops the implementation makes form an accepted schedule
+(evidenced by the correspondence run, which replays them).
 
 Outside every theorem (ordered fields have no +∞, NaN or overflow), tied by the correspondence run
 only, oracles silent: a tentative cost of +∞ (1e308 m at weight 10) or NaN never improves on a
